@@ -255,6 +255,18 @@ func convShapes(tr *hx.Trace, r *hx.Rng) {
 		}
 		tr.Emit(ev)
 	}
+	// the base-point fast path of X25519 (taken only for the exported Basepoint slice itself) with unclamped scalars
+	for i := 0; i < 12; i++ {
+		sc := mkbuf(r, 32, nil)
+		sc.s[0] |= byte(1 + i%7)
+		sc.s[31] |= 0x80
+		if i%2 == 1 {
+			sc.s[31] &^= 0x40
+		}
+		before := snapshot(sc.s, x25519.Basepoint)
+		outcome, kind := call(func() error { _, err := x25519.X25519(sc.s, x25519.Basepoint); return err })
+		emit("X25519", outcome, kind, before == snapshot(sc.s, x25519.Basepoint))
+	}
 	for i := 0; i < 24; i++ {
 		var content []byte
 		switch i % 3 {
